@@ -464,6 +464,87 @@ Proof.
 Qed.
 
 (* what append does, for a destination that is nil-like or inside a block *)
+Lemma mappend_lit_spec g dst data st :
+  (sl_cap dst = 0 /\ sl_len dst = 0 \/ wf_slice (st_heap st) dst) ->
+  data <> [] ->
+  exists st' d, mappend_lit g dst data st = (st', d) /\
+    length (st_heap st) <= length (st_heap st') /\
+    (forall b, b < length (st_heap st) -> b <> sl_blk d -> hblock (st_heap st') b = hblock (st_heap st) b) /\
+    mread_bytes (st_heap st') d = mread_bytes (st_heap st) dst ++ data /\
+    wf_slice (st_heap st') d /\
+    (sl_blk d = length (st_heap st) \/ (sl_blk d = sl_blk dst /\ 0 < sl_cap dst)) /\
+    (* the bytes of an existing block in front of the end of dst are not touched *)
+    (forall s, sl_blk s < length (st_heap st) ->
+       (sl_blk s = sl_blk dst -> sl_off s + sl_len s <= sl_off dst + sl_len dst) ->
+       mread_bytes (st_heap st') s = mread_bytes (st_heap st) s).
+Proof.
+  intros HD NE.
+  set (h := st_heap st) in *.
+  unfold mappend_lit. destruct data as [|d0 data'] eqn:ED; [congruence|].
+  rewrite <- ED. assert (LD : 1 <= length data) by (rewrite ED; cbn; lia). clear ED NE.
+  fold h.
+  destruct (Nat.leb (sl_len dst + length data) (sl_cap dst)) eqn:E.
+  - (* in place *)
+    apply Nat.leb_le in E. destruct HD as [[C0 _]|(WB & WL & WC)]; [lia|].
+    eexists _, _. split; [reflexivity|]. cbn [st_heap log_acc sl_blk sl_off sl_len sl_cap].
+    set (B := hblock h (sl_blk dst)) in *.
+    assert (HB : hblock (hwrite h (sl_blk dst) (sl_off dst + sl_len dst) data) (sl_blk dst)
+                 = set_at (sl_off dst + sl_len dst) data B).
+    { unfold hblock, hwrite. apply nth_upd_nth_same. assumption. }
+    assert (HO : forall b, b <> sl_blk dst ->
+                 hblock (hwrite h (sl_blk dst) (sl_off dst + sl_len dst) data) b = hblock h b).
+    { intros b Hb. unfold hblock, hwrite. apply nth_upd_nth_other. assumption. }
+    split; [unfold hwrite; rewrite length_upd_nth; lia|].
+    split; [intros b _ Hb; apply HO; assumption|].
+    split.
+    { unfold mread_bytes at 1. cbn [sl_blk sl_off sl_len]. rewrite HB. unfold set_at.
+      rewrite skipn_app.
+      rewrite firstn_length_le by lia.
+      replace (sl_off dst - (sl_off dst + sl_len dst)) with 0 by lia. rewrite skipn_O.
+      rewrite <- firstn_skipn_comm. fold (mread_bytes h dst).
+      assert (LM : length (mread_bytes h dst) = sl_len dst) by (apply length_mread; repeat split; auto).
+      rewrite <- LM at 1. rewrite firstn_app_2. f_equal.
+      replace (length data) with (length data + 0) at 1 by lia.
+      rewrite firstn_app_2, firstn_O. apply app_nil_r. }
+    split.
+    { repeat split; cbn [sl_blk sl_off sl_len sl_cap].
+      - unfold hwrite. rewrite length_upd_nth. assumption.
+      - assumption.
+      - rewrite HB. unfold set_at. rewrite !app_length, firstn_length_le, skipn_length by lia. lia. }
+    split; [right; split; [reflexivity|lia]|].
+    intros s SB SBelow.
+    destruct (Nat.eq_dec (sl_blk s) (sl_blk dst)) as [EQ|NEQ].
+    + specialize (SBelow EQ). unfold mread_bytes. rewrite EQ, HB. fold B. unfold set_at.
+      rewrite skipn_app, firstn_app.
+      rewrite firstn_length_le by lia.
+      rewrite skipn_length, firstn_length_le by lia.
+      replace (sl_len s - (sl_off dst + sl_len dst - sl_off s)) with 0 by lia.
+      rewrite firstn_O, app_nil_r.
+      rewrite skipn_firstn_comm, firstn_firstn. rewrite Nat.min_l by lia. reflexivity.
+    + apply mread_same_block. apply HO. assumption.
+  - (* grow *)
+    apply Nat.leb_gt in E.
+    eexists _, _. split; [reflexivity|]. cbn [st_heap log_read log_acc sl_blk sl_off sl_len sl_cap]. fold h.
+    assert (LM : length (mread_bytes h dst) = sl_len dst).
+    { destruct HD as [[C0 L0]|W]; [|apply length_mread; assumption].
+      pose proof (length_mread_le h dst). lia. }
+    set (n := sl_len dst + length data) in *.
+    split; [rewrite app_length; lia|].
+    split; [intros b Hb _; apply hblock_app_old; assumption|].
+    split.
+    { unfold mread_bytes at 1. cbn [sl_blk sl_off sl_len]. rewrite hblock_app_new, skipn_O.
+      rewrite app_assoc. replace n with (length (mread_bytes h dst ++ data) + 0)
+        by (rewrite app_length; lia).
+      rewrite firstn_app_2, firstn_O. apply app_nil_r. }
+    split.
+    { repeat split; cbn [sl_blk sl_off sl_len sl_cap].
+      - rewrite app_length. cbn. lia.
+      - unfold new_cap. lia.
+      - rewrite hblock_app_new, !app_length, length_zeros. unfold new_cap. lia. }
+    split; [left; reflexivity|].
+    intros s SB _. apply mread_same_block. apply hblock_app_old. assumption.
+Qed.
+
 Lemma mappend_spec g dst src st :
   (sl_cap dst = 0 /\ sl_len dst = 0 \/ wf_slice (st_heap st) dst) ->
   mread_bytes (st_heap st) src <> [] ->
@@ -475,52 +556,10 @@ Lemma mappend_spec g dst src st :
     (sl_blk d = length (st_heap st) \/ (sl_blk d = sl_blk dst /\ 0 < sl_cap dst)).
 Proof.
   intros HD NE. unfold mappend.
-  set (h := st_heap st) in *. set (data := mread_bytes h src) in *.
-  unfold mappend_lit. destruct data as [|d0 data'] eqn:ED; [congruence|].
-  rewrite <- ED. assert (LD : 1 <= length data) by (rewrite ED; cbn; lia). clearbody data.
-  cbn [st_heap log_read log_acc].
-  destruct (Nat.leb (sl_len dst + length data) (sl_cap dst)) eqn:E.
-  - (* in place *)
-    apply Nat.leb_le in E. destruct HD as [[C0 _]|(WB & WL & WC)]; [lia|].
-    eexists _, _. split; [reflexivity|]. cbn [st_heap log_acc sl_blk sl_off sl_len sl_cap].
-    fold h. set (B := hblock h (sl_blk dst)) in *.
-    assert (HB : hblock (hwrite h (sl_blk dst) (sl_off dst + sl_len dst) data) (sl_blk dst)
-                 = set_at (sl_off dst + sl_len dst) data B).
-    { unfold hblock, hwrite. apply nth_upd_nth_same. assumption. }
-    repeat split.
-    + unfold hwrite. rewrite length_upd_nth. lia.
-    + intros b _ Hb. unfold hblock, hwrite. apply nth_upd_nth_other. assumption.
-    + unfold mread_bytes at 1. cbn [sl_blk sl_off sl_len]. rewrite HB. unfold set_at.
-      rewrite skipn_app.
-      rewrite firstn_length_le by lia.
-      replace (sl_off dst - (sl_off dst + sl_len dst)) with 0 by lia. rewrite skipn_O.
-      rewrite <- firstn_skipn_comm. fold (mread_bytes h dst).
-      assert (LM : length (mread_bytes h dst) = sl_len dst) by (apply length_mread; repeat split; auto).
-      rewrite <- LM at 1. rewrite firstn_app_2. f_equal.
-      replace (length data) with (length data + 0) at 1 by lia.
-      rewrite firstn_app_2, firstn_O. apply app_nil_r.
-    + unfold hwrite. rewrite length_upd_nth. assumption.
-    + assumption.
-    + cbn. rewrite HB. unfold set_at. rewrite !app_length, firstn_length_le, skipn_length by lia. lia.
-    + right. split; [reflexivity|lia].
-  - (* grow *)
-    apply Nat.leb_gt in E.
-    eexists _, _. split; [reflexivity|]. cbn [st_heap log_acc sl_blk sl_off sl_len sl_cap]. fold h.
-    assert (LM : length (mread_bytes h dst) = sl_len dst).
-    { destruct HD as [[C0 L0]|W]; [|apply length_mread; assumption].
-      pose proof (length_mread_le h dst). lia. }
-    set (n := sl_len dst + length data) in *.
-    repeat split.
-    + rewrite app_length. lia.
-    + intros b Hb _. apply hblock_app_old. assumption.
-    + unfold mread_bytes at 1. cbn [sl_blk sl_off sl_len]. rewrite hblock_app_new, skipn_O.
-      rewrite app_assoc. replace n with (length (mread_bytes h dst ++ data) + 0)
-        by (rewrite app_length; lia).
-      rewrite firstn_app_2, firstn_O. apply app_nil_r.
-    + cbn. rewrite app_length. cbn. lia.
-    + cbn. unfold new_cap. lia.
-    + cbn. rewrite hblock_app_new, !app_length, length_zeros. unfold new_cap. lia.
-    + left. reflexivity.
+  destruct (mappend_lit_spec g dst (mread_bytes (st_heap st) src) (log_read src st) HD NE)
+    as (st' & d & EQ & A & B & C & D & E & _).
+  rewrite EQ. exists st', d. cbn [log_read log_acc st_heap] in *.
+  split; [reflexivity|]. split; [exact A|]. split; [exact B|]. split; [exact C|]. split; [exact D|exact E].
 Qed.
 
 (* one iteration of the pure parser *)
@@ -1304,4 +1343,418 @@ Proof.
               = Some 512) by (vm_compute; reflexivity).
   rewrite (hblock_firstn 1 [d7_arena] _ 0 E) in K by auto.
   rewrite first_diff_refl in K. discriminate K.
+Qed.
+
+(* ================================================================== *)
+(* 6. Refinement of the other read paths                               *)
+(* ================================================================== *)
+
+(* an accumulation buffer: still nil, or a slice inside a block *)
+Definition acc_ok (h : heap) (acc : slice) : Prop :=
+  (sl_cap acc = 0 /\ sl_len acc = 0) \/ wf_slice h acc.
+
+Lemma acc_ok_len h acc : acc_ok h acc -> length (mread_bytes h acc) = sl_len acc.
+Proof.
+  intros [[_ L0]|W]; [|apply length_mread; assumption].
+  pose proof (length_mread_le h acc). lia.
+Qed.
+
+Lemma mread_nil h : mread_bytes h nil_slice = [].
+Proof. unfold mread_bytes, nil_slice. cbn [sl_len]. apply firstn_O. Qed.
+
+Lemma mappend_acc n0 g acc raw st :
+  n0 <= length (st_heap st) -> safe n0 acc -> acc_ok (st_heap st) acc ->
+  exists st' acc', mappend g acc raw st = (st', Ok acc') /\
+    firstn n0 (st_heap st') = firstn n0 (st_heap st) /\
+    length (st_heap st) <= length (st_heap st') /\
+    safe n0 acc' /\ acc_ok (st_heap st') acc' /\
+    mread_bytes (st_heap st') acc' = mread_bytes (st_heap st) acc ++ mread_bytes (st_heap st) raw.
+Proof.
+  intros LN S A.
+  destruct (ro_mappend n0 g acc raw S st LN) as [(E1 & E2 & _) SF].
+  destruct (mread_bytes (st_heap st) raw) as [|b0 bs] eqn:ER.
+  - unfold mappend in *. rewrite ER in *. cbn [mappend_lit fst snd] in *.
+    eexists _, _. split; [reflexivity|]. cbn [log_read log_acc st_heap] in *.
+    repeat split; auto. rewrite app_nil_r. reflexivity.
+  - destruct (mappend_spec g acc raw st A) as (st' & d & EQ & L2 & FR & RD & WF & BLK).
+    { rewrite ER. discriminate. }
+    rewrite EQ in *. cbn [fst snd] in *. exists st', d.
+    split; [reflexivity|]. split; [exact E1|]. split; [exact L2|].
+    split; [apply SF; reflexivity|]. split; [right; exact WF|]. rewrite RD, ER. reflexivity.
+Qed.
+
+Lemma view_read h0 h v :
+  view_ok h0 v -> firstn (length h0) h = h0 ->
+  mread_bytes h v = mread_bytes h0 v /\ length (mread_bytes h0 v) = 512.
+Proof.
+  intros [(VB & VL & VC) V512] EH. split.
+  - apply mread_same_block. eapply hblock_firstn; [|exact VB]. rewrite EH. symmetry. apply firstn_all.
+  - rewrite <- V512. apply length_mread. repeat split; assumption.
+Qed.
+
+(* Share.RawData() of a view denotes the pure sh_raw_data *)
+Lemma raw_data_view_refines h0 h v :
+  view_ok h0 v -> firstn (length h0) h = h0 ->
+  exists raw, raw_data_view v (mread_bytes h0 v) = Ok raw /\
+    mread_bytes h raw = sh_raw_data (mread_bytes h0 v) /\
+    sl_len raw = length (sh_raw_data (mread_bytes h0 v)).
+Proof.
+  intros VOK EH. destruct (view_read h0 h v VOK EH) as [SH L512].
+  destruct VOK as [(VB & VL & VC) V512].
+  pose proof (raw_data_start_le (mread_bytes h0 v)) as RS.
+  unfold raw_data_view. rewrite (mslice2_ok v _ (sl_len v)) by lia.
+  eexists. split; [reflexivity|]. split.
+  - unfold sh_raw_data.
+    transitivity (skipn (raw_data_start (mread_bytes h0 v)) (mread_bytes h v)); [|rewrite SH; reflexivity].
+    apply mread_mslice2_from. apply mslice2_ok; lia.
+  - cbn [sl_len]. unfold sh_raw_data. rewrite skipn_length. lia.
+Qed.
+
+(* ---- Sequence.RawData ---- *)
+
+Lemma seq_accumulate_refines g h0 : forall views st acc,
+  firstn (length h0) (st_heap st) = h0 -> Forall (view_ok h0) views ->
+  safe (length h0) acc -> acc_ok (st_heap st) acc ->
+  exists st' acc', seq_accumulate g views acc st = (st', Ok acc') /\
+    firstn (length h0) (st_heap st') = h0 /\ safe (length h0) acc' /\ acc_ok (st_heap st') acc' /\
+    mread_bytes (st_heap st') acc' =
+      mread_bytes (st_heap st) acc ++ concat (map sh_raw_data (map (mread_bytes h0) views)).
+Proof.
+  induction views as [|v tl IH]; intros st acc EH FV S A.
+  - exists st, acc. cbn. rewrite app_nil_r. auto.
+  - inversion FV as [|v' tl' VOK FV']; subst.
+    assert (LN : length h0 <= length (st_heap st)).
+    { rewrite <- EH at 1. rewrite firstn_length. lia. }
+    destruct (view_read h0 (st_heap st) v VOK EH) as [SH _].
+    destruct (raw_data_view_refines h0 (st_heap st) v VOK EH) as (raw & RV & RR & _).
+    cbn [seq_accumulate]. unfold mbind at 1. unfold mread at 1. cbn [fst snd]. rewrite SH.
+    unfold mbind at 1. unfold mlift at 1. rewrite RV.
+    destruct (mappend_acc (length h0) g acc raw (log_read v st) LN S A)
+      as (st1 & acc1 & EQ & E1 & L1 & S1 & A1 & R1).
+    unfold mbind at 1. rewrite EQ. cbn [log_read log_acc st_heap] in *.
+    assert (EH1 : firstn (length h0) (st_heap st1) = h0) by (rewrite E1; exact EH).
+    destruct (IH st1 acc1 EH1 FV' S1 A1) as (st' & acc' & EQ' & EH' & S' & A' & R').
+    exists st', acc'. split; [exact EQ'|]. repeat split; auto.
+    rewrite R', R1, RR. cbn [map concat]. rewrite app_assoc. reflexivity.
+Qed.
+
+Theorem sequence_raw_data_mem_refines : forall g h ns views,
+  Forall (view_ok h) views ->
+  snd (sequence_raw_data_mem g views (mk_st h [])) =
+  sequence_raw_data (mk_seq ns (map (mread_bytes h) views)).
+Proof.
+  intros g h ns views FV. unfold sequence_raw_data_mem, sequence_raw_data. cbn [sq_shares].
+  destruct (seq_accumulate_refines g h views (mk_st h []) nil_slice (firstn_all h) FV
+              (safe_nil _) (or_introl (conj eq_refl eq_refl)))
+    as (st' & data & EQ & EH & _ & A & RD).
+  unfold mbind at 1. rewrite EQ. cbn [st_heap] in RD. rewrite mread_nil in RD. cbn [app] in RD.
+  destruct views as [|first tl]; [reflexivity|].
+  inversion FV as [|v' tl' VOK _]; subst.
+  destruct (view_read h (st_heap st') first VOK EH) as [SH _].
+  cbn [map]. unfold mbind at 1. unfold mread at 1. cbn [fst snd]. rewrite SH.
+  set (sl := sh_seq_len (mread_bytes h first)).
+  cbn [map] in RD. rewrite <- RD.
+  assert (LD : lenN (mread_bytes (st_heap st') data) = N.of_nat (sl_len data)).
+  { unfold lenN. rewrite acc_ok_len by assumption. reflexivity. }
+  rewrite LD. destruct (N.ltb (N.of_nat (sl_len data)) sl) eqn:LT; [reflexivity|].
+  apply N.ltb_ge in LT.
+  assert (LC : sl_len data <= sl_cap data).
+  { destruct A as [[C0 L0]|(_ & WL & _)]; lia. }
+  clearbody sl.
+  assert (LE : N.to_nat sl <= sl_len data) by lia.
+  unfold mbind, mlift. rewrite (mslice2_ok data 0 (N.to_nat sl)) by lia.
+  unfold mread. cbn [fst snd log_read log_acc st_heap].
+  unfold slice_to. rewrite LD, (proj2 (N.leb_le _ _) LT). f_equal.
+  rewrite (mread_mslice2 (st_heap st') data 0 (N.to_nat sl) _ (mslice2_ok data 0 _ (Nat.le_0_l _) (Nat.le_trans _ _ _ LE LC))) by exact LE.
+  rewrite skipn_O, Nat.sub_0_r. reflexivity.
+Qed.
+
+Theorem sequence_raw_data_mem_correct : forall g h ns views,
+  run_read_only (sequence_raw_data_mem g views) h /\
+  (Forall (view_ok h) views ->
+   snd (sequence_raw_data_mem g views (mk_st h [])) =
+   sequence_raw_data (mk_seq ns (map (mread_bytes h) views))).
+Proof.
+  intros. split; [apply sequence_raw_data_mem_readonly|apply sequence_raw_data_mem_refines].
+Qed.
+
+(* ---- extractRawData ---- *)
+
+Lemma wf_mslice2 h s lo hi r : wf_slice h s -> mslice2 s lo hi = Ok r -> wf_slice h r.
+Proof.
+  intros (WB & WL & WC). unfold mslice2. destruct (_ && _) eqn:E; intros K; inversion K; subst; clear K.
+  apply andb_true_iff in E. destruct E as [E1 E2]. apply Nat.leb_le in E1, E2.
+  repeat split; cbn [sl_blk sl_off sl_len sl_cap]; auto; lia.
+Qed.
+
+(* the three-valued agreement of a memory-level and a pure outcome *)
+Definition outcome_rel {A B} (R : A -> B -> Prop) (o : outcome A) (p : outcome B) : Prop :=
+  match o, p with
+  | Ok a, Ok b => R a b
+  | Err, Err => True
+  | Fault, Fault => True
+  | _, _ => False
+  end.
+
+Lemma raw_using_reserved_refines h0 h v :
+  view_ok h0 v -> firstn (length h0) h = h0 ->
+  outcome_rel (fun raw rb => mread_bytes h raw = rb /\ sl_len raw = length rb)
+    (raw_using_reserved_view v (mread_bytes h0 v)) (sh_raw_data_using_reserved (mread_bytes h0 v)).
+Proof.
+  intros VOK EH. destruct (view_read h0 h v VOK EH) as [SH L512].
+  destruct VOK as [(VB & VL & VC) V512].
+  set (sh := mread_bytes h0 v) in *.
+  unfold raw_using_reserved_view, sh_raw_data_using_reserved.
+  set (index := 30 + addif (sh_start sh) 4 + addif (sh_start sh && (N.eqb (sh_version sh) 1)) 20).
+  assert (IB : index <= 54).
+  { unfold index, addif. destruct (sh_start sh), (N.eqb (sh_version sh) 1); cbn; lia. }
+  change (Nat.add (Nat.add 30 (addif (sh_start sh) 4)) (addif (sh_start sh && (sh_version sh =? 1)%N) 20))
+    with index.
+  destruct (sh_is_compact sh).
+  - destruct (parse_reserved_bytes (firstn 4 (skipn index sh))) as [r| |] eqn:PR; cbn [bind outcome_rel]; auto.
+    assert (RB : (r < 512)%N).
+    { unfold parse_reserved_bytes in PR. destruct (negb _); [discriminate PR|].
+      destruct (512 <=? rd32 (firstn 4 (skipn index sh)))%N eqn:LE; [discriminate PR|].
+      inversion PR; subst. apply N.leb_gt in LE. exact LE. }
+    destruct (N.eqb r 0).
+    + cbn [outcome_rel]. rewrite mread_nil. split; reflexivity.
+    + assert (LS : lenN sh = N.of_nat (sl_len v)) by (unfold lenN; rewrite L512, V512; reflexivity).
+      rewrite LS.
+      destruct (N.ltb (N.of_nat (sl_len v)) r) eqn:LT; [exact I|].
+      apply N.ltb_ge in LT. unfold slice_from. rewrite LS, (proj2 (N.leb_le _ _) LT).
+      rewrite (mslice2_ok v (N.to_nat r) (sl_len v)) by lia. cbn [outcome_rel]. split.
+      * unfold dropN.
+        transitivity (skipn (N.to_nat r) (mread_bytes h v)); [|rewrite SH; reflexivity].
+        apply mread_mslice2_from. apply mslice2_ok; lia.
+      * cbn [sl_len]. unfold dropN. rewrite skipn_length. lia.
+  - rewrite (mslice2_ok v index (sl_len v)) by lia. cbn [outcome_rel]. split.
+    + transitivity (skipn index (mread_bytes h v)); [|rewrite SH; reflexivity].
+      apply mread_mslice2_from. apply mslice2_ok; lia.
+    + cbn [sl_len]. rewrite skipn_length. lia.
+Qed.
+
+Lemma extract_raw_data_mem_refines_gen g h0 : forall views found st acc,
+  firstn (length h0) (st_heap st) = h0 -> Forall (view_ok h0) views ->
+  safe (length h0) acc -> acc_ok (st_heap st) acc ->
+  forall r, r = extract_raw_data_mem g found views acc st ->
+  firstn (length h0) (st_heap (fst r)) = h0 /\
+  outcome_rel (fun acc' rest =>
+      safe (length h0) acc' /\ acc_ok (st_heap (fst r)) acc' /\
+      mread_bytes (st_heap (fst r)) acc' = mread_bytes (st_heap st) acc ++ rest)
+    (snd r) (extract_raw_data found (map (mread_bytes h0) views)).
+Proof.
+  induction views as [|v tl IH]; intros found st acc EH FV S A r RE.
+  - subst r. cbn. rewrite app_nil_r. auto.
+  - inversion FV as [|v' tl' VOK FV']; subst v' tl'.
+    assert (LN : length h0 <= length (st_heap st)).
+    { rewrite <- EH at 1. rewrite firstn_length. lia. }
+    destruct (view_read h0 (st_heap st) v VOK EH) as [SH _].
+    cbn [extract_raw_data_mem] in RE. unfold mbind at 1 in RE. unfold mread at 1 in RE.
+    cbn [fst snd] in RE. rewrite SH in RE.
+    cbn [map extract_raw_data].
+    set (sh := mread_bytes h0 v) in *.
+    destruct found.
+    + destruct (raw_data_view_refines h0 (st_heap st) v VOK EH) as (raw & RV & RR & _). fold sh in RV, RR.
+      unfold mbind at 1 in RE. unfold mlift at 1 in RE. rewrite RV in RE.
+      destruct (mappend_acc (length h0) g acc raw (log_read v st) LN S A)
+        as (st1 & acc1 & EQ & E1 & L1 & S1 & A1 & R1).
+      unfold mbind at 1 in RE. rewrite EQ in RE. cbn [log_read log_acc st_heap] in *.
+      assert (EH1 : firstn (length h0) (st_heap st1) = h0) by (rewrite E1; exact EH).
+      destruct (IH true st1 acc1 EH1 FV' S1 A1 r RE) as [EH' REL].
+      split; [exact EH'|].
+      destruct (snd r) as [acc'| |], (extract_raw_data true (map (mread_bytes h0) tl)) as [rest| |];
+        cbn [outcome_rel bind] in *; auto.
+      destruct REL as (S' & A' & R'). repeat split; auto.
+      rewrite R', R1, RR, app_assoc. reflexivity.
+    + pose proof (raw_using_reserved_refines h0 (st_heap st) v VOK EH) as RU. fold sh in RU.
+      unfold mbind at 1 in RE. unfold mlift at 1 in RE.
+      destruct (raw_using_reserved_view v sh) as [raw| |], (sh_raw_data_using_reserved sh) as [rb| |];
+        cbn [outcome_rel bind] in *; try contradiction;
+        try (subst r; cbn [fst snd log_read log_acc st_heap outcome_rel]; split; [exact EH|exact I]).
+      destruct RU as [RR RL].
+      destruct (mappend_acc (length h0) g acc raw (log_read v st) LN S A)
+        as (st1 & acc1 & EQ & E1 & L1 & S1 & A1 & R1).
+      unfold mbind at 1 in RE. rewrite EQ in RE. cbn [log_read log_acc st_heap] in *.
+      assert (EH1 : firstn (length h0) (st_heap st1) = h0) by (rewrite E1; exact EH).
+      rewrite RL in RE.
+      destruct (IH (negb (Nat.eqb (length rb) 0)) st1 acc1 EH1 FV' S1 A1 r RE) as [EH' REL].
+      split; [exact EH'|].
+      destruct (snd r) as [acc'| |],
+               (extract_raw_data (negb (Nat.eqb (length rb) 0)) (map (mread_bytes h0) tl)) as [rest| |];
+        cbn [outcome_rel bind] in *; auto.
+      destruct REL as (S' & A' & R'). repeat split; auto.
+      rewrite R', R1, RR, app_assoc. reflexivity.
+Qed.
+
+(* extractRawData on views = the pure extract_raw_data on the bytes of the views *)
+Theorem extract_raw_data_mem_refines : forall g h views,
+  Forall (view_ok h) views ->
+  outcome_rel (fun acc' rest =>
+      mread_bytes (st_heap (fst (extract_raw_data_mem g false views nil_slice (mk_st h [])))) acc' = rest)
+    (snd (extract_raw_data_mem g false views nil_slice (mk_st h [])))
+    (extract_raw_data false (map (mread_bytes h) views)).
+Proof.
+  intros g h views FV.
+  destruct (extract_raw_data_mem_refines_gen g h views false (mk_st h []) nil_slice (firstn_all h) FV
+              (safe_nil _) (or_introl (conj eq_refl eq_refl)) _ eq_refl) as [_ REL].
+  destruct (snd (extract_raw_data_mem g false views nil_slice (mk_st h []))) as [acc'| |],
+           (extract_raw_data false (map (mread_bytes h) views)) as [rest| |];
+    cbn [outcome_rel] in *; auto.
+  destruct REL as (_ & _ & R). rewrite R. cbn [st_heap]. rewrite mread_nil. reflexivity.
+Qed.
+
+(* ---- parseDelimiter ---- *)
+
+(* bytes behind a complete (or overflowing) varint do not change what Uvarint returns *)
+Lemma uvarint_go_app : forall a b i shift acc,
+  uvarint_go i a shift acc <> UvShort -> uvarint_go i (a ++ b) shift acc = uvarint_go i a shift acc.
+Proof.
+  induction a as [|x a IH]; intros b i shift acc H.
+  - cbn in H. congruence.
+  - cbn [app uvarint_go] in *. destruct (Nat.eqb i 10); [reflexivity|].
+    destruct (N.ltb (b2n x) 128); [reflexivity|]. apply IH. assumption.
+Qed.
+
+Lemma zeros_nonempty k : 0 < k -> zeros k <> [].
+Proof.
+  intros H K. apply (f_equal (@length byte)) in K. rewrite length_zeros in K. cbn in K. lia.
+Qed.
+
+(* the agreement of the two results; [E] is the end offset of the buffer *)
+Definition delim_rel (h : heap) (n0 : nat) (input : slice) (m : mdelim) (p : delim_result) : Prop :=
+  match m, p with
+  | MDelimOk rest ul, DelimOk prest pul =>
+    ul = pul /\ mread_bytes h rest = prest /\ sl_len rest = length prest /\
+    safe n0 rest /\ acc_ok h rest /\
+    (0 < sl_len input -> sl_blk rest = sl_blk input /\ sl_off rest + sl_len rest = sl_off input + sl_len input)
+  | MDelimIncomplete, DelimIncomplete => True
+  | MDelimErr, DelimErr => True
+  | MDelimFault, DelimFault => True
+  | _, _ => False
+  end.
+
+(* bytes of existing blocks in front of the end of [input] are stable from h to h' *)
+Definition stable_below (h h' : heap) (input : slice) : Prop :=
+  forall s, sl_blk s < length h ->
+    (0 < sl_len input -> sl_blk s = sl_blk input -> sl_off s + sl_len s <= sl_off input + sl_len input) ->
+    mread_bytes h' s = mread_bytes h s.
+
+Lemma parse_delimiter_mem_refines n0 g input st :
+  n0 <= length (st_heap st) -> safe n0 input -> acc_ok (st_heap st) input ->
+  forall r, r = parse_delimiter_mem g input st ->
+  firstn n0 (st_heap (fst r)) = firstn n0 (st_heap st) /\
+  length (st_heap st) <= length (st_heap (fst r)) /\
+  stable_below (st_heap st) (st_heap (fst r)) input /\
+  delim_rel (st_heap st) n0 input (snd r) (parse_delimiter (mread_bytes (st_heap st) input)).
+Proof.
+  intros LN S A r RE.
+  pose proof (acc_ok_len _ _ A) as LI.
+  unfold parse_delimiter_mem in RE.
+  destruct (Nat.eqb (sl_len input) 0) eqn:Z.
+  { apply Nat.eqb_eq in Z. subst r. cbn [fst snd].
+    assert (NIL : mread_bytes (st_heap st) input = []).
+    { apply length_zero_iff_nil. lia. }
+    rewrite NIL. cbn [parse_delimiter delim_rel].
+    split; [reflexivity|]. split; [lia|]. split; [intros s _ _; reflexivity|].
+    repeat split; auto; try lia; try (rewrite Z; reflexivity). }
+  apply Nat.eqb_neq in Z.
+  assert (W : wf_slice (st_heap st) input) by (destruct A as [[_ L0]|W]; [lia|exact W]).
+  destruct W as (WB & WL & WC).
+  set (h := st_heap st) in *. set (ib := mread_bytes h input) in *.
+  set (l := Nat.min 10 (sl_len input)) in *.
+  rewrite (mslice2_ok input 0 l) in RE by lia.
+  set (head := mk_slice (sl_blk input) (sl_off input + 0) (l - 0) (sl_cap input - 0)) in *.
+  assert (HB : mread_bytes h head = firstn 10 ib).
+  { unfold head. rewrite (mread_mslice2 h input 0 l _ (mslice2_ok input 0 l ltac:(lia) ltac:(lia))) by lia.
+    rewrite skipn_O, Nat.sub_0_r. fold ib. unfold l.
+    destruct (Nat.le_gt_cases 10 (sl_len input)) as [GE|LT].
+    - rewrite Nat.min_l by lia. reflexivity.
+    - rewrite Nat.min_r by lia. rewrite !firstn_all2 by lia. reflexivity. }
+  assert (LH : length (firstn 10 ib) = l).
+  { rewrite firstn_length. unfold l. lia. }
+  assert (INE : ib <> []).
+  { intros K. rewrite K in LI. cbn in LI. lia. }
+  assert (PD : parse_delimiter ib =
+    match uvarint (firstn 10 ib) with
+    | UvShort => if Nat.ltb (length (firstn 10 ib)) 10 then DelimIncomplete else DelimErr
+    | UvOverflow => DelimErr
+    | UvOk v _ =>
+      if Nat.leb (length (put_uvarint (u64 v))) (length ib)
+      then DelimOk (skipn (length (put_uvarint (u64 v))) ib) (u64 v) else DelimFault
+    end).
+  { unfold parse_delimiter. destruct ib; [congruence|reflexivity]. }
+  rewrite PD. clear PD.
+  rewrite HB in RE. rewrite LH.
+  (* the padded delimiter *)
+  assert (PAD : forall st1, st_heap st1 = h ->
+     exists st2 delim,
+       (if Nat.leb 10 l then (st1, head) else mappend_lit g head (zeros (10 - l)) st1) = (st2, delim) /\
+       firstn n0 (st_heap st2) = firstn n0 h /\ length h <= length (st_heap st2) /\
+       stable_below h (st_heap st2) input /\
+       mread_bytes (st_heap st2) delim = firstn 10 ib ++ zeros (10 - l) /\
+       (uvarint (firstn 10 ib) = UvShort -> Nat.ltb l 10 = false ->
+        mread_bytes (st_heap st2) delim = firstn 10 ib)).
+  { intros st1 H1. destruct (Nat.leb 10 l) eqn:E10.
+    - apply Nat.leb_le in E10. exists st1, head. split; [reflexivity|]. rewrite H1.
+      split; [reflexivity|]. split; [lia|]. split; [intros s _ _; reflexivity|].
+      replace (10 - l) with 0 by lia. rewrite zeros_0, app_nil_r. split; [exact HB|]. intros _ _. exact HB.
+    - apply Nat.leb_gt in E10.
+      assert (LL : l = sl_len input) by (unfold l; lia).
+      assert (WH : wf_slice (st_heap st1) head).
+      { rewrite H1. unfold head. repeat split; cbn [sl_blk sl_off sl_len sl_cap]; auto; lia. }
+      destruct (mappend_lit_spec g head (zeros (10 - l)) st1 (or_intror WH) (zeros_nonempty (10 - l) ltac:(lia)))
+        as (st2 & d & EQ & L2 & FR & RD & WF & BLK & BELOW).
+      assert (SH : safe n0 head) by (eapply safe_mslice2; [exact S|apply mslice2_ok; lia]).
+      destruct (mappend_lit_ext n0 g head (zeros (10 - l)) st1 ltac:(rewrite H1; exact LN) SH) as [(E1 & _) _].
+      rewrite EQ in E1. cbn [fst] in E1.
+      exists st2, d. split; [exact EQ|]. rewrite H1 in *.
+      split; [exact E1|]. split; [exact L2|]. split.
+      + intros s SB SBelow. apply BELOW; [exact SB|].
+        unfold head. cbn [sl_blk sl_off sl_len]. intros EQB. specialize (SBelow ltac:(lia) EQB). lia.
+      + split; [rewrite RD, HB; reflexivity|].
+        intros _ K. apply Nat.ltb_ge in K. lia. }
+  destruct (uvarint (firstn 10 ib)) as [v c| |] eqn:UV.
+  - (* a complete varint *)
+    destruct (PAD (log_read head st) eq_refl) as (st2 & delim & EQ & E2 & L2 & SB2 & RD & _).
+    cbn [negb] in RE. rewrite EQ in RE. rewrite RD in RE.
+    assert (RU : read_uvarint (firstn 10 ib ++ zeros (10 - l)) =
+                 Ok (u64 v, skipn c (firstn 10 ib ++ zeros (10 - l)))).
+    { unfold read_uvarint. rewrite firstn_all2 by (rewrite app_length, length_zeros, LH; lia).
+      unfold uvarint in *. rewrite uvarint_go_app by (rewrite UV; discriminate). rewrite UV. reflexivity. }
+    rewrite RU in RE. clear RU.
+    set (n := length (put_uvarint (u64 v))) in *.
+    destruct (Nat.leb n (length ib)) eqn:NL.
+    + apply Nat.leb_le in NL. rewrite (mslice2_ok input n (sl_len input)) in RE by lia.
+      subst r. cbn [fst snd log_read log_acc st_heap]. split; [exact E2|]. split; [exact L2|].
+      split; [exact SB2|]. cbn [delim_rel].
+      set (rest := mk_slice _ _ _ _).
+      assert (MR : mslice2 input n (sl_len input) = Ok rest) by (apply mslice2_ok; lia).
+      split; [reflexivity|]. split; [apply (mread_mslice2_from h input n rest MR)|].
+      split; [unfold rest; cbn [sl_len]; rewrite skipn_length; lia|].
+      split; [eapply safe_mslice2; [exact S|exact MR]|].
+      split; [right; eapply wf_mslice2; [|exact MR]; repeat split; assumption|].
+      intros _. unfold rest. cbn [sl_blk sl_off sl_len]. split; [reflexivity|lia].
+    + apply Nat.leb_gt in NL.
+      assert (MF : mslice2 input n (sl_len input) = Fault).
+      { unfold mslice2. rewrite (proj2 (Nat.leb_gt n (sl_len input))) by lia. reflexivity. }
+      rewrite MF in RE. subst r. cbn [fst snd log_read log_acc st_heap].
+      split; [exact E2|]. split; [exact L2|]. split; [exact SB2|exact I].
+  - (* the input ends inside the varint *)
+    destruct (Nat.ltb l 10) eqn:L10.
+    + subst r. cbn [fst snd log_read log_acc st_heap]. fold h.
+      split; [reflexivity|]. split; [lia|]. split; [intros s _ _; reflexivity|exact I].
+    + destruct (PAD (log_read head st) eq_refl) as (st2 & delim & EQ & E2 & L2 & SB2 & _ & RD).
+      rewrite EQ in RE. rewrite (RD eq_refl eq_refl) in RE.
+      assert (RU : read_uvarint (firstn 10 ib) = Err).
+      { unfold read_uvarint. rewrite firstn_firstn, Nat.min_id, UV. reflexivity. }
+      rewrite RU in RE. subst r. cbn [fst snd log_read log_acc st_heap].
+      split; [exact E2|]. split; [exact L2|]. split; [exact SB2|exact I].
+  - (* overflow *)
+    destruct (PAD (log_read head st) eq_refl) as (st2 & delim & EQ & E2 & L2 & SB2 & RD & _).
+    cbn [negb] in RE. rewrite EQ in RE. rewrite RD in RE.
+    assert (RU : read_uvarint (firstn 10 ib ++ zeros (10 - l)) = Err).
+    { unfold read_uvarint. rewrite firstn_all2 by (rewrite app_length, length_zeros, LH; lia).
+      unfold uvarint in *. rewrite uvarint_go_app by (rewrite UV; discriminate). rewrite UV. reflexivity. }
+    rewrite RU in RE. subst r. cbn [fst snd log_read log_acc st_heap].
+    split; [exact E2|]. split; [exact L2|]. split; [exact SB2|exact I].
 Qed.
